@@ -533,8 +533,8 @@ class Interp:
             loc = self.loc_of(fn, n["c"][0]) or self._ptr_loc(fn, n["c"][0])
             if loc is not None:
                 st.set(loc, None)
-        elif k == "DeclStmt":
-            for v in kids(n):
+        elif k in ("DeclStmt", "Var"):
+            for v in ([n] if k == "Var" else kids(n)):
                 if v.get("k") != "Var":
                     continue
                 t = fn.tu.types[v["t"]]
